@@ -6,6 +6,7 @@
 #include <stdlib.h>
 #include <string.h>
 #include <iv.h>
+#include "iv_private.h"
 #include "sx.h"
 #include "kmodel.h"
 #include "pmodel.h"
@@ -613,10 +614,15 @@ static void wait_entry(struct kwait_info *wi)
 	/* C06: never sleeps with a task registered */
 	for (i = 0; i < nJ; i++)
 		anytask |= J[i].registered;
-	if (anytask)
-		sx_assert(wi->has_timeout && (wi->to_sec == 0) & (wi->to_nsec == 0), "C06.sleeps-with-task-pending");
-	/* C04: never oversleeps */
 	armed = timerfd_armed_for(wi, &A);
+	if (anytask) {
+		/* a zero timeout, or (after the zero deadline repeated five times) a kernel timer that has
+		 * already expired: the library arms it for the instant (0, 1 ns) */
+		long immediate = wi->has_timeout ? ((wi->to_sec == 0) & (wi->to_nsec == 0))
+						 : (armed ? ((A.sec == 0) & (A.nsec <= 1)) : 0);
+		sx_assert(immediate, "C06.sleeps-with-task-pending");
+	}
+	/* C04: never oversleeps */
 	for (i = 0; i < nT; i++) {
 		struct tmrec *r = &T[i];
 		long dsec, dnsec, due;
@@ -805,6 +811,10 @@ void sx_main(void)
 
 	iv_init();
 	sx_note("method", P_method);
+	if (sx_opt("symepoch", 0)) {
+		/* the loop has been running for an unknown number of task rounds already */
+		iv_get_state()->task_epoch = (uint32_t)sx_long("task.rounds-so-far", 0, 0xfffffff0L);
+	}
 
 	for (i = 0; i < nK; i++) {
 		F[i].id = i;
